@@ -27,17 +27,17 @@ CLAIMED.update({
  "C03": e1("C03","6 (C03), 5 (E1)","After every request under topology-aware: per pool the shared/reserved milli-CPU promised in the subtree <= 1000 x CPUs left in the pool's shared/reserved set, the ledger (grant portions == per-pool counters, never negative), zone Available never negative, every CPU-pinned container has a non-empty allowed set, exclusive CPU count == a reference eligibility model written from the documentation, isolated CPUs all-or-none and only when eligible, cpu.shares == kubelet encoding of the granted capacity.","pool capacity ledger + eligibility reference model after every request"),
  "C05": e1("C05","6 (C05), 5 (E1)","After every request under both policies: told view == cache view on cpuset, mems, shares, quota, period, memory limit, swap for every created/running container (an empty set recorded in the cache is read as 'no pinning' and not compared); nothing pending after the reply; the CreateContainer adjustment equals the cache values of the created container; at most one update per container per reply; no update for a stopped/removed container.","told-view == cache-view oracle after every request"),
  "C04": e1("C04","6 (C04), 5 (E1)","After every successful request under both policies, through the policy's libmem allocator (public API only): told memory nodes == AssignedZone for every container memory pinning applies to; told nodes non-empty, existing and with memory (machine model); every assigned zone and every union of assigned zones holds no more than its capacity (computed from request sizes and the machine model); every container whose assigned zone changed during a request is told its new zone in that same reply.","memory pinning oracle over told view + allocator public API"),
- "C08": e1("C08","6 (C08), 5 (E1)","A checking decorator around the policies' cpuallocator.CPUAllocator interface field checks every AllocateCpus/ReleaseCpus call made by simulated histories of both policies on generated topologies (hybrid, clustered, cache-group, cpufreq/EPP variants): exact count, subset, set bookkeeping, failure leaves the set unchanged; each call is repeated on copies of its arguments under two other seeded map-iteration orders and must give the same result (the allocator's only nondeterminism source). In addition a long-lived monitored allocator on the discovered system is driven with seeded direct calls (random subsets of the online CPUs or what the previous call left, counts 0..|set|+1, all priorities, all 16 flag combinations), since the property quantifies over all candidate sets.","CPU allocator contract monitor + map-order determinism re-execution"),
+ "C08": e1("C08","6 (C08), 5 (E1)","A checking decorator around the policies' cpuallocator.CPUAllocator interface field checks every AllocateCpus/ReleaseCpus call made by simulated histories of both policies on generated topologies (hybrid, clustered, cache-group, cpufreq/EPP variants): exact count, subset, set bookkeeping, failure leaves the set unchanged; each call is repeated on copies of its arguments under two other seeded map-iteration orders and must give the same result (the allocator's only nondeterminism source). In addition a long-lived monitored allocator on the discovered system is driven with seeded direct calls (random subsets of the online CPUs or what the previous call left, counts 0..|set|+1, all priorities, all 16 flag combinations), since the property quantifies over all candidate sets; every direct call is repeated on a second allocator instance whose topology discovery ran under another map-iteration order and must give the same outcome. Machines include offline cores.","CPU allocator contract monitor + map-order determinism re-execution"),
  "C09": e1("C09","6 (C09), 5 (E1)","After every request a stopped container must hold no grant, balloon membership or memory allocation; at the end of every history everything is stopped and removed through the real handlers and the policy state is compared with a fresh twin instance given the last accepted configuration on the same machine (topology zones, pool free == total supply and zero counters; for balloons: the same balloons by type, size and membership and the same number of idle CPUs - which CPUs a surviving pre-created balloon holds and its instance number are not compared; no memory requests, empty cache).","leak oracle: stopped-holds-nothing + teardown vs fresh twin instance"),
  "C11": e1("C11","6 (C11), 5 (E1)","Restart at request boundaries on the persisted state directory with containers vanishing meanwhile, then Synchronize with the runtime's lists: nothing may be held by containers the runtime does not report created/running, the cache is purged of unknown pods/containers, every reported created/running container holds an allocation whenever that same set held allocations simultaneously before (and the configuration is unchanged), the invariants of C01-C04 hold and told view == cache view. Restarts are clean ones at request boundaries and kills of the plugin at a seeded file-system operation in the middle of a lifecycle request (the runtime carries on without the answer); torn writes are C10's subject.","restart + Synchronize convergence oracle"),
- "C13": e1("C13","6 (C13), 5 (E1)","Configuration updates at any request boundary through resmgr.updateConfig (real apply/revert path): identical updates must change no told view or zone; rejected updates must leave told views and zones unchanged and, differentially, every later request identical to a run that never received them; after accepted updates every created/running container holds an allocation, stopped ones none, C01-C04 hold and told == cache. Several genuine atomicity/idempotence defects are recorded as known findings.","reconfiguration oracle incl. differential twin without the rejected update"),
+ "C13": e1("C13","6 (C13), 5 (E1)","Configuration updates at any request boundary through resmgr.updateConfig (real apply/revert path): identical updates must change no told view, zone or amount of memory the policy's allocator holds for a container; rejected updates must leave told views and zones unchanged and, differentially, every later request identical to a run that never received them; after accepted updates every created/running container holds an allocation, stopped ones none, C01-C04 hold and told == cache. Several genuine atomicity/idempotence defects are recorded as known findings.","reconfiguration oracle incl. differential twin without the rejected update"),
  "C14": e1("C14","6 (C14), 5 (E1, E5)","Out-of-protocol NRI event sequences (duplicates, reordering, unknown or forgotten ids, containers of unknown pods, absent optional sub-messages) and malformed annotation values against the real handlers of both resource-policy plugins, each call under recover with the logger's Fatal exit trapped through klog.OsExit; after every refused request a canonical pod+container life cycle must be served. The memory-qos, memtierd and sgx-epc handlers are driven by the annsim engine (same check).","panic/fatal-exit trap around every handler under NRI fault injection"),
- "C16": e1("C16","6 (C16), 5 (E1)","For every generated machine the discovered sysfs.System (CPU ids, package/die/node/core, thread siblings, online/isolated, node CPU lists, memory sizes, distances, cache sharing) must equal the model that was rendered, and the topology-aware pool snapshot must be a single tree with disjoint siblings, parents containing children, root == available CPUs, isolated/reserved/sharable a partition, all memory at the root, child memory within parent memory, CPU-less PMEM/HBM attached exactly to pools holding a closest CPU-bearing DRAM node. Configuration sampling evaluated at every start and accepted reconfiguration of the simulated histories.","discovery-vs-model and pool-tree well-formedness oracle at every start/reconfigure"),
+ "C16": e1("C16","6 (C16), 5 (E1)","For every generated machine the discovered sysfs.System (CPU ids, package/die/node/core, thread siblings, online/isolated, node CPU lists, memory sizes, distances, cache sharing) and, per package and die, their CPU sets and NUMA-node lists must equal the model that was rendered (offline cores included in the machines), and the topology-aware pool snapshot must be a single tree with disjoint siblings, parents containing children, root == available CPUs, isolated/reserved/sharable a partition, all memory at the root, child memory within parent memory, CPU-less PMEM/HBM attached exactly to pools holding a closest CPU-bearing DRAM node. Configuration sampling evaluated at every start and accepted reconfiguration of the simulated histories.","discovery-vs-model and pool-tree well-formedness oracle at every start/reconfigure"),
  "C12": e1("C12","6 (C12), 5 (E1)","Every adjustment, returned update and pushed update of every request is inspected: a container opted out of CPU pinning (cpu.preserve at container/pod/bare level, balloons preserve rule, pinCPU off) is never told a cpuset it does not already hold; a container opted out of memory pinning (memory.preserve, pinMemory off globally or for its balloon type) is never told memory nodes other than those it already had. Cold-start completion is delivered by the harness (the event loop of this commit drops policy events).","opt-out oracle over every adjustment/update"),
 })
 CLAIMED["C18"] = dict(engine="annsim", level="exploration", ref="6 (C18), 5 (E5)",
    technique="deterministic simulation over the one nondeterminism source the property quantifies: seeded map-iteration orders of the plugins' annotation loops (verifgen range rewriting), handlers run in-package via source transplant, differential against a reference resolver",
-   text="GetEffectiveAnnotation through a real cache, sgx-epc parseEpcLimit and the memory-qos / memtierd CreateContainer handlers are run on generated annotation maps (all three forms, container names that are prefixes/suffixes of each other or contain separators). Results must equal an independent resolver (container-specific > pod-wide > bare), be identical under 8 map-iteration orders per map, be unchanged when annotations addressed to other containers are removed, and an explicitly annotated cgroup parameter must win over the class-derived value.",
+   text="GetEffectiveAnnotation through a real cache, sgx-epc parseEpcLimit and the memory-qos / memtierd CreateContainer handlers are run on generated annotation maps (all three forms, container names that are prefixes/suffixes of each other or contain separators). Results must equal an independent resolver (container-specific > pod-wide > bare), be identical under 8 map-iteration orders per map, be unchanged when annotations addressed to other containers are removed, and an explicitly annotated cgroup parameter must win over the class-derived value. memtierd's StartContainer is run against a scratch cgroup tree and the memtierd configuration it prepares must be the one of the class effective for the container.",
    note="The plugins are package main: their sources are compiled into harness packages by verifgen (package clause and main() renamed, nothing else), so what runs is the repository's current code. 8 orders per map are sampled.")
 
 CLAIMED["C17"] = dict(engine="agentsim", level="exploration", ref="6 (C17), 5 (E4)",
@@ -47,7 +47,7 @@ CLAIMED["C17"] = dict(engine="agentsim", level="exploration", ref="6 (C17), 5 (E
 
 CLAIMED["C15"] = dict(engine="nrisim", level="exploration", ref="6 (C15), 5 (E1)",
    technique="deterministic simulation with a seeded cooperative scheduler: the real handlers run as tasks of which exactly one runs at a time; verifgen turns every Lock/Unlock, go statement and channel receive of pkg/resmgr and pkg/resmgr/cache, and every method entry of the cache and policy types, into scheduling points / access probes; lock-discipline monitor, deadlock detection, serializability against k! sequential twin executions",
-   text="After a sequential prefix, 2-3 independent requests (lifecycle requests, a configuration update, a Synchronize) are delivered concurrently under seeded schedules, including starvation-biased ones. Every cache/policy method entry inside a handler must happen under the resource manager's lock; no schedule may deadlock; the resulting plugin state and request outcomes must equal those of some sequential order of the same requests (each order executed in a fresh twin world); the C01-C05 invariants must hold on the resulting state; and a reader calling GetPodResources after InsertPod returned must observe what the asynchronous fetch delivers, for every scheduling of the fetch goroutine and the kubelet's answer.",
+   text="After a sequential prefix, 2-3 independent requests (lifecycle requests, a configuration update, a Synchronize) are delivered concurrently under seeded schedules, including starvation-biased ones. Every cache/policy method entry inside a handler, or inside a goroutine a handler started, must happen under the resource manager's lock; no schedule may deadlock; the resulting plugin state and request outcomes must equal those of some sequential order of the same requests (each order executed in a fresh twin world); the C01-C05 invariants must hold on the resulting state; and a reader calling GetPodResources after InsertPod returned must observe what the asynchronous fetch delivers, for every scheduling of the fetch goroutine and the kubelet's answer.",
    note=E1NOTE+" The scheduler controls interleaving at synchronisation points and unprotected method entries, not at individual memory accesses; the Go race detector named in the property's observe_at is outside this technique. Four genuine defects found by this check were repaired in /repo (see known-findings.json, fixed entries).")
 
 NOT_BUILT = {
